@@ -136,6 +136,12 @@ class Interp:
                         return False
                 return True
             return False
+        if k == "PTuple":
+            if isinstance(val, tuple) and val and val[0] == "tuple":
+                val = val[1:]
+            if not isinstance(val, (tuple, list)) or len(val) != len(pat["elems"]):
+                return False
+            return all(self.bind(sub, x, env) for sub, x in zip(pat["elems"], val))
         if k == "PLit":
             return val == self.lit(pat["lit"])
         if k == "PType":
